@@ -55,6 +55,7 @@ type evidence struct {
 	unreproduced                        []string
 	coverDiverged                       int
 	nSplitJobs, nSplitCases, nSplitDone int
+	nComplete                           int
 }
 
 func newEvidence(prop, tier string, seed int, plan Plan) *evidence {
@@ -86,6 +87,9 @@ func (e *evidence) addReport(j Job, r *report.Report) {
 		default:
 			e.nOther++
 		}
+	}
+	if je.Complete {
+		e.nComplete++
 	}
 	for _, s := range r.Known {
 		je.Known = append(je.Known, s.String())
@@ -202,11 +206,12 @@ func (e *evidence) finish(wall float64, exit int) {
 		known = append(known, k)
 	}
 	sort.Strings(known)
-	complete := 0
-	for _, j := range e.jobs {
-		if j.Complete {
-			complete++
-		}
+	complete := e.nComplete
+	if e.Inconclusive == nil {
+		e.Inconclusive = []string{}
+	}
+	if e.unreproduced == nil {
+		e.unreproduced = []string{}
 	}
 	if len(e.samples) == 0 {
 		e.samples = append(e.samples, "no engine run completed")
